@@ -305,7 +305,7 @@ def rule_order(E, R):
             R.check(good, rule, p, "matcher table indexed by list.index()", where=ix["sp"])
     R.floor(rule, "list_matchers[...] index sites", n, 8)
     # the compiled comparison
-    cm = E.hirs(r"compile_with_compiler::InList as ast::index_expr::Compare<U>>::compare$")
+    cm = E.hirs(r"\w+::InList as ast::index_expr::Compare<U>>::compare$")
     if len(cm) != 1:
         R.cannot(rule, "InList::compare", "anchor not found")
     else:
